@@ -460,14 +460,14 @@ func c15InotifyReAdd(c *core.Ctx, rng *rand.Rand) {
 	os.WriteFile(filepath.Join(dir, "f"), nil, 0o644)
 	os.Symlink(filepath.Join(dir, "f"), filepath.Join(dir, "lf"))
 	os.Symlink(filepath.Join(dir, "d"), filepath.Join(dir, "ld"))
-	n := 480
+	n := 560
 	if c.Tier == "thorough" {
 		n = 6000
 	}
 	nv := 0
 	for it := 0; it < n; it++ {
-		variant := it % 6 // 0 dir, 1 file, 2 link follow, 3 link no-follow, 4 rotation, 5 the same file under several names
-		target := []string{"d", "f", "lf", "lf", "f", "d"}[variant]
+		variant := it % 7 // 0 dir, 1 file, 2 link follow, 3 link no-follow, 4 rotation, 5 the same file under several names, 6 a regular file with the follow mode changing from call to call
+		target := []string{"d", "f", "lf", "lf", "f", "d", "f"}[variant]
 		p := filepath.Join(dir, target)
 		k := 2 + rng.Intn(4)
 		rotateAt := -1
@@ -501,7 +501,8 @@ func c15InotifyReAdd(c *core.Ctx, rng *rand.Rand) {
 				hist = append(hist, "rotate")
 			}
 			opts := []real.VerifAddOpt{real.VerifWithOps(ops)}
-			if variant == 3 {
+			nofollow := variant == 3 || (variant == 6 && rng.Intn(2) == 0)
+			if nofollow {
 				opts = append(opts, real.VerifWithNoFollow())
 			}
 			pj := p
@@ -510,7 +511,7 @@ func c15InotifyReAdd(c *core.Ctx, rng *rand.Rand) {
 				pj = filepath.Join(dir, sp)
 				hist = append(hist, "Add("+sp+", "+ops.String()+")")
 			} else {
-				hist = append(hist, "Add("+ops.String()+")")
+				hist = append(hist, "Add("+ops.String()+map[bool]string{true: ", no-follow", false: ""}[nofollow && variant == 6]+")")
 			}
 			if err := w.AddWith(pj, opts...); err != nil {
 				c.Violate("inotify-readd", fmt.Sprintf("%s: %v: %v", target, hist, err), nil)
